@@ -219,6 +219,10 @@ package cache
 // header map <-> JSON bytes (encoding/json), and a compiled filter <-> its source text (regexp)
 //@ spec func jsonHdr(m map[string]Vals) Bytes
 //@ spec func unjsonHdr(b Bytes) map[string]Vals
+// encoding/json writes strings as UTF-8 and replaces invalid bytes by U+FFFD: the round trip is the identity only for
+// header maps whose names and values are valid UTF-8 (assumed library behaviour, see known_findings.json)
+//@ spec func utf8Hdr(m map[string]Vals) bool
+//@ axiom [json-roundtrip]: forall m map[string]Vals {jsonHdr(m)} :: utf8Hdr(m) ==> unjsonHdr(jsonHdr(m)) == m
 //@ spec func reString(re *regexp.Regexp) string
 //@ spec func filterText(r *HTTPResponse) string := (r.CompressContentTypeFilter == nil) ? "" : reString(r.CompressContentTypeFilter)
 //@ spec func encRespOf(r *HTTPResponse) Bytes := encRespV(s2b(r.CompressSrv), r.CompressMinLength, s2b(filterText(r)), jsonHdr(hdr(r.Header)), r.StatusCode, contents(r.GzipBody), contents(r.BrBody), contents(r.RawBody))
@@ -230,6 +234,7 @@ package cache
 
 // decoding is sequential and total: every field is what the parser functions say, for any input
 //@ func (resp *HTTPResponse) FromBytes(data []byte) (err error)
+//@   boundedalloc
 //@   requires [recv] resp != nil
 //@   modifies resp.CompressSrv, resp.CompressMinLength, resp.CompressContentTypeFilter, resp.Header, resp.StatusCode, resp.GzipBody, resp.BrBody, resp.RawBody, $hdr
 //@   nopanic
@@ -247,6 +252,7 @@ package cache
 //@   ensures [format] err == nil ==> contents(data) == encEntry(hc.status, (hc.response == nil) ? bempty() : encRespOf(hc.response), hc.createdAt, hc.expiredAt)
 
 //@ func (hc *httpCache) FromBytes(data []byte) (err error)
+//@   boundedalloc
 //@   requires [recv] hc != nil && hc.mu != nil
 //@   requires [locked] held(hc.mu)
 //@   requires [tok] hc.status != StatusFetching || $tok[hc] >= 1
@@ -258,14 +264,32 @@ package cache
 //@   ensures [short]  entryShort(contents(data)) ==> err != nil
 //@   ensures [fields] err == nil ==> hc.status == pStatus(contents(data)) && hc.createdAt == pCreated(contents(data)) && hc.expiredAt == pExpired(contents(data))
 
+// one step of the sequential parser: a fixed-width number, or a length-delimited field, in front of any tail
+//@ lemma [u32-step] using cat-len, bytes-len, bytes-empty, bcat-empty, bcat-empty2, be32, take-cat, drop-cat, take-all, drop-all, drop-zero: forall v int, t Bytes {bcat(be32(v), t)} :: fits32(v) ==> de32(btake(bcat(be32(v), t), 4)) == v && bdrop(bcat(be32(v), t), 4) == t
+//@ lemma [field-step] using cat-len, bytes-len, bytes-empty, bcat-empty, bcat-empty2, take-cat, drop-cat, take-all, drop-all, drop-zero: forall x Bytes, t Bytes, n int {btake(bcat(x, t), n)} {bdrop(bcat(x, t), n)} :: n == blen(x) ==> btake(bcat(x, t), n) == x && bdrop(bcat(x, t), n) == t
 // encode-then-parse is the identity on every field, and every strict prefix of a record is short
-//@ lemma [entry-roundtrip]: forall st int, rb Bytes, cr int, ex int :: fits32(st) && fits32(blen(rb)) && in64(cr) && in64(ex) ==>
+//@ lemma [entry-roundtrip] using cat-len, bytes-len, be32, be64, take-all, drop-all, u32-step, field-step: forall st int, rb Bytes, cr int, ex int {encEntry(st, rb, cr, ex)} :: fits32(st) && fits32(blen(rb)) && in64(cr) && in64(ex) ==>
 //@     !entryShort(encEntry(st, rb, cr, ex)) && pStatus(encEntry(st, rb, cr, ex)) == st && pResp(encEntry(st, rb, cr, ex)) == rb && pCreated(encEntry(st, rb, cr, ex)) == cr && pExpired(encEntry(st, rb, cr, ex)) == ex
-//@ lemma [entry-truncated]: forall st int, rb Bytes, cr int, ex int, n int :: fits32(st) && fits32(blen(rb)) && in64(cr) && in64(ex) && 0 <= n && n < blen(encEntry(st, rb, cr, ex)) ==>
+//@ lemma [entry-truncated]: forall st int, rb Bytes, cr int, ex int, n int {btake(encEntry(st, rb, cr, ex), n)} :: fits32(st) && fits32(blen(rb)) && in64(cr) && in64(ex) && 0 <= n && n < blen(encEntry(st, rb, cr, ex)) ==>
 //@     entryShort(btake(encEntry(st, rb, cr, ex), n))
-//@ lemma [resp-roundtrip]: forall srv Bytes, min int, filt Bytes, hj Bytes, code int, gz Bytes, br Bytes, raw Bytes :: fits32(blen(srv)) && fits32(min) && fits32(blen(filt)) && fits32(blen(hj)) && fits32(code) && fits32(blen(gz)) && fits32(blen(br)) && fits32(blen(raw)) ==>
-//@     rSrv(encRespV(srv, min, filt, hj, code, gz, br, raw)) == srv && rMin(encRespV(srv, min, filt, hj, code, gz, br, raw)) == min && rFilt(encRespV(srv, min, filt, hj, code, gz, br, raw)) == filt && rHdr(encRespV(srv, min, filt, hj, code, gz, br, raw)) == hj
-//@     && rCode(encRespV(srv, min, filt, hj, code, gz, br, raw)) == code && rGz(encRespV(srv, min, filt, hj, code, gz, br, raw)) == gz && rBr(encRespV(srv, min, filt, hj, code, gz, br, raw)) == br && rRaw(encRespV(srv, min, filt, hj, code, gz, br, raw)) == raw
+//@ lemma [header-roundtrip] using json-roundtrip: forall m map[string]Vals {jsonHdr(m)} :: unjsonHdr(jsonHdr(m)) == m
+// the response record field by field: each lemma uses the position established by the one before it
+//@ lemma [resp-roundtrip-srv] hide r* except rSrvLen, rPreSrv, rSrvTake, rSrv, rAfterSrv using cat-len, bytes-len, bytes-empty, be32, take-all, drop-all, u32-step, field-step: forall srv Bytes, min int, filt Bytes, hj Bytes, code int, gz Bytes, br Bytes, raw Bytes {encRespV(srv, min, filt, hj, code, gz, br, raw)} :: fits32(blen(srv)) && fits32(min) && fits32(blen(filt)) && fits32(blen(hj)) && fits32(code) && fits32(blen(gz)) && fits32(blen(br)) && fits32(blen(raw)) ==>
+//@     rSrv(encRespV(srv, min, filt, hj, code, gz, br, raw)) == srv && rAfterSrv(encRespV(srv, min, filt, hj, code, gz, br, raw)) == bcat(be32(uint32(min)), bcat(be32(uint32(blen(filt))), bcat(filt, bcat(be32(uint32(blen(hj))), bcat(hj, bcat(be32(uint32(code)), bcat(be32(uint32(blen(gz))), bcat(gz, bcat(be32(uint32(blen(br))), bcat(br, bcat(be32(uint32(blen(raw))), raw)))))))))))
+//@ lemma [resp-roundtrip-min] hide r* except rMin, rAfterMin using cat-len, bytes-len, bytes-empty, be32, take-all, drop-all, u32-step, field-step, resp-roundtrip-srv: forall srv Bytes, min int, filt Bytes, hj Bytes, code int, gz Bytes, br Bytes, raw Bytes {encRespV(srv, min, filt, hj, code, gz, br, raw)} :: fits32(blen(srv)) && fits32(min) && fits32(blen(filt)) && fits32(blen(hj)) && fits32(code) && fits32(blen(gz)) && fits32(blen(br)) && fits32(blen(raw)) ==>
+//@     rMin(encRespV(srv, min, filt, hj, code, gz, br, raw)) == min && rAfterMin(encRespV(srv, min, filt, hj, code, gz, br, raw)) == bcat(be32(uint32(blen(filt))), bcat(filt, bcat(be32(uint32(blen(hj))), bcat(hj, bcat(be32(uint32(code)), bcat(be32(uint32(blen(gz))), bcat(gz, bcat(be32(uint32(blen(br))), bcat(br, bcat(be32(uint32(blen(raw))), raw))))))))))
+//@ lemma [resp-roundtrip-filt] hide r* except rFiltLen, rPreFilt, rFiltTake, rFilt, rAfterFilt using cat-len, bytes-len, bytes-empty, be32, take-all, drop-all, u32-step, field-step, resp-roundtrip-min: forall srv Bytes, min int, filt Bytes, hj Bytes, code int, gz Bytes, br Bytes, raw Bytes {encRespV(srv, min, filt, hj, code, gz, br, raw)} :: fits32(blen(srv)) && fits32(min) && fits32(blen(filt)) && fits32(blen(hj)) && fits32(code) && fits32(blen(gz)) && fits32(blen(br)) && fits32(blen(raw)) ==>
+//@     rFilt(encRespV(srv, min, filt, hj, code, gz, br, raw)) == filt && rAfterFilt(encRespV(srv, min, filt, hj, code, gz, br, raw)) == bcat(be32(uint32(blen(hj))), bcat(hj, bcat(be32(uint32(code)), bcat(be32(uint32(blen(gz))), bcat(gz, bcat(be32(uint32(blen(br))), bcat(br, bcat(be32(uint32(blen(raw))), raw))))))))
+//@ lemma [resp-roundtrip-hdr] hide r* except rHdrLen, rPreHdr, rHdrTake, rHdr, rAfterHdr using cat-len, bytes-len, bytes-empty, be32, take-all, drop-all, u32-step, field-step, resp-roundtrip-filt: forall srv Bytes, min int, filt Bytes, hj Bytes, code int, gz Bytes, br Bytes, raw Bytes {encRespV(srv, min, filt, hj, code, gz, br, raw)} :: fits32(blen(srv)) && fits32(min) && fits32(blen(filt)) && fits32(blen(hj)) && fits32(code) && fits32(blen(gz)) && fits32(blen(br)) && fits32(blen(raw)) ==>
+//@     rHdr(encRespV(srv, min, filt, hj, code, gz, br, raw)) == hj && rAfterHdr(encRespV(srv, min, filt, hj, code, gz, br, raw)) == bcat(be32(uint32(code)), bcat(be32(uint32(blen(gz))), bcat(gz, bcat(be32(uint32(blen(br))), bcat(br, bcat(be32(uint32(blen(raw))), raw))))))
+//@ lemma [resp-roundtrip-code] hide r* except rCode, rAfterCode using cat-len, bytes-len, bytes-empty, be32, take-all, drop-all, u32-step, field-step, resp-roundtrip-hdr: forall srv Bytes, min int, filt Bytes, hj Bytes, code int, gz Bytes, br Bytes, raw Bytes {encRespV(srv, min, filt, hj, code, gz, br, raw)} :: fits32(blen(srv)) && fits32(min) && fits32(blen(filt)) && fits32(blen(hj)) && fits32(code) && fits32(blen(gz)) && fits32(blen(br)) && fits32(blen(raw)) ==>
+//@     rCode(encRespV(srv, min, filt, hj, code, gz, br, raw)) == code && rAfterCode(encRespV(srv, min, filt, hj, code, gz, br, raw)) == bcat(be32(uint32(blen(gz))), bcat(gz, bcat(be32(uint32(blen(br))), bcat(br, bcat(be32(uint32(blen(raw))), raw)))))
+//@ lemma [resp-roundtrip-gz] hide r* except rGzLen, rPreGz, rGzTake, rGz, rAfterGz using cat-len, bytes-len, bytes-empty, be32, take-all, drop-all, u32-step, field-step, resp-roundtrip-code: forall srv Bytes, min int, filt Bytes, hj Bytes, code int, gz Bytes, br Bytes, raw Bytes {encRespV(srv, min, filt, hj, code, gz, br, raw)} :: fits32(blen(srv)) && fits32(min) && fits32(blen(filt)) && fits32(blen(hj)) && fits32(code) && fits32(blen(gz)) && fits32(blen(br)) && fits32(blen(raw)) ==>
+//@     rGz(encRespV(srv, min, filt, hj, code, gz, br, raw)) == gz && rAfterGz(encRespV(srv, min, filt, hj, code, gz, br, raw)) == bcat(be32(uint32(blen(br))), bcat(br, bcat(be32(uint32(blen(raw))), raw)))
+//@ lemma [resp-roundtrip-br] hide r* except rBrLen, rPreBr, rBrTake, rBr, rAfterBr using cat-len, bytes-len, bytes-empty, be32, take-all, drop-all, u32-step, field-step, resp-roundtrip-gz: forall srv Bytes, min int, filt Bytes, hj Bytes, code int, gz Bytes, br Bytes, raw Bytes {encRespV(srv, min, filt, hj, code, gz, br, raw)} :: fits32(blen(srv)) && fits32(min) && fits32(blen(filt)) && fits32(blen(hj)) && fits32(code) && fits32(blen(gz)) && fits32(blen(br)) && fits32(blen(raw)) ==>
+//@     rBr(encRespV(srv, min, filt, hj, code, gz, br, raw)) == br && rAfterBr(encRespV(srv, min, filt, hj, code, gz, br, raw)) == bcat(be32(uint32(blen(raw))), raw)
+//@ lemma [resp-roundtrip-raw] hide r* except rRawLen, rPreRaw, rRawTake, rRaw, rAfterRaw using cat-len, bytes-len, bytes-empty, be32, take-all, drop-all, u32-step, field-step, resp-roundtrip-br: forall srv Bytes, min int, filt Bytes, hj Bytes, code int, gz Bytes, br Bytes, raw Bytes {encRespV(srv, min, filt, hj, code, gz, br, raw)} :: fits32(blen(srv)) && fits32(min) && fits32(blen(filt)) && fits32(blen(hj)) && fits32(code) && fits32(blen(gz)) && fits32(blen(br)) && fits32(blen(raw)) ==>
+//@     rRaw(encRespV(srv, min, filt, hj, code, gz, br, raw)) == raw && rAfterRaw(encRespV(srv, min, filt, hj, code, gz, br, raw)) == bempty()
 
 //@ func uint32ToBytes(value int) (out []byte)
 //@   nopanic
@@ -276,6 +300,7 @@ package cache
 //@   ensures [enc] contents(out) == be64(uint64(value)) && len(out) == 8 && fresh(out)
 
 //@ func readUint32ToInt(buffer *bytes.Buffer) (v int, err error)
+//@   boundedalloc
 //@   requires [buf] buffer != nil
 //@   modifies buffer.rest
 //@   nopanic
@@ -285,6 +310,7 @@ package cache
 //@   ensures [dec]   err == nil ==> v == de32(btake(old(buffer.rest), 4)) && buffer.rest == bdrop(old(buffer.rest), 4)
 
 //@ func readUint64ToInt64(buffer *bytes.Buffer) (v int64, err error)
+//@   boundedalloc
 //@   requires [buf] buffer != nil
 //@   modifies buffer.rest
 //@   nopanic
@@ -572,7 +598,7 @@ package cache
 //@   ensures [absent] name != "" && !ds.m.dom[box(name)] ==> forall c *lru.Cache :: c.view == old(c.view) && c.dom == old(c.dom)
 //@   ensures [all]    name == "" ==> forall k any :: ds.m.dom[k] ==> !shardOf(unbox(ds.m.vals[k], "*dispatcher"), key).cache.dom[keyOf(key)]
 //@   ensures [locks]  nolocks()
-//@   rangeloop 0: invariant [done] forall k any :: $dom0[k] && $ridx[k] < $ri ==> !shardOf(unbox($vals0[k], "*dispatcher"), key).cache.dom[keyOf(key)]
+//@   rangeloop 0: invariant [done] forall k any {$ridx[k]} :: $dom0[k] && $ridx[k] < $ri ==> !shardOf(unbox($vals0[k], "*dispatcher"), key).cache.dom[keyOf(key)]
 //@   rangeloop 0: invariant [same] nolocks() && $dom0 == ds.m.dom && $vals0 == ds.m.vals && registryOK(ds)
 
 //@ func RemoveHTTPCache(name string, key []byte)
